@@ -54,6 +54,11 @@ type c15Scenario struct {
 // … and a module whose NAME ends in .zn (file 甲.zn.zn), next to the module 甲 (file 甲.zn)
 var c15Names = []string{"甲", "乙", "丙", "库-丁", "库-深-戊", "库", "甲.zn"}
 
+// a second family of names: nested modules over a two-name alphabet, so that directories are
+// named like modules and different (importer, imported) pairs spell alike once joined with the
+// separator (甲 + 甲-甲 / 甲-甲 + 甲)
+var c15NamesNested = []string{"甲", "甲-甲", "甲-乙", "乙-甲", "乙", "甲-甲-甲", "乙-乙"}
+
 func c15Path(name string) string {
 	return "/proj/" + strings.ReplaceAll(name, "-", "/") + ".zn"
 }
@@ -254,7 +259,11 @@ func c15Enum(idx, maxK int) (int, uint64, bool) {
 func runC15(t *zsim.Tape, cfg *hlib.Config) *hlib.Outcome {
 	sc := &c15Scenario{}
 	out := &hlib.Outcome{Scenario: sc, Note: map[string]int{}}
-	k := 1 + t.Draw(len(c15Names))
+	names := c15Names
+	if t.Draw(3) == 1 {
+		names = c15NamesNested
+	}
+	k := 1 + t.Draw(len(names))
 	enumK, enumAdj, enumerated := 0, uint64(0), false
 	if mk := cfg.Int("enum", 0); mk > 0 {
 		if ek, adj, ok := c15Enum(cfg.RunIndex, mk); ok {
@@ -264,7 +273,7 @@ func runC15(t *zsim.Tape, cfg *hlib.Config) *hlib.Outcome {
 	}
 	// which names are used
 	for i := 0; i < k; i++ {
-		n := c15Names[i]
+		n := names[i]
 		sc.Mods = append(sc.Mods, &c15Mod{Name: n, Path: c15Path(n)})
 	}
 	byName := map[string]*c15Mod{}
